@@ -268,6 +268,24 @@ int main (int argc, char **argv)
       rc = sc_MPI_Error_string (errcode (tok[1]), str, &len);
       prc (rc); printf (" %s", (len != ISENT && len > 0 && (size_t) len == strlen (str)) ? "text" : "BAD");
     }
+    else if (!strcmp (c, "errtext")) {
+      /* NAME: the text and the length stored (serial build: compared with the model; MPI's wording is its own) */
+      char str[sc_MPI_MAX_ERROR_STRING + 1]; int len = ISENT;
+      memset (str, 0, sizeof str);
+      rc = sc_MPI_Error_string (errcode (tok[1]), str, &len);
+      prc (rc); if (len == ISENT) printf (" UNSET "); else printf (" %d ", len); dump ((const unsigned char *) str, strlen (str));
+    }
+    else if (!strcmp (c, "errclassx") || !strcmp (c, "errtextx")) {
+      /* CODE (a number that is none of the 21 codes): serial build only */
+      int code = atoi (tok[1]), cls = ISENT, len = ISENT; char str[sc_MPI_MAX_ERROR_STRING + 1];
+#ifdef SC_ENABLE_MPI
+      printf ("skipped");
+#else
+      memset (str, 0, sizeof str);
+      if (c[3] == 'c') { rc = sc_MPI_Error_class (code, &cls); prc (rc); printf (" "); pint (cls == sc_MPI_ERR_UNKNOWN ? -1 : cls); }
+      else { rc = sc_MPI_Error_string (code, str, &len); prc (rc); if (len == ISENT) printf (" UNSET "); else printf (" %d ", len); dump ((const unsigned char *) str, strlen (str)); }
+#endif
+    }
     else printf ("UNKNOWN_CASE");
     printf ("\n");
   }
